@@ -187,6 +187,21 @@ void run_cfg(Src &s, Case &c, const Alphabet &a, const Bytes &payload, const Byt
         // self-sizing overloads (ASan watches their own buffer)
         std::vector<uint8_t> v1 = gstuffing_v(vec.data(), vec.size(), ctx);
         VP_CHECK(v1 == frame, "encode_vector_iov_differs", "vector gstuffing_v differs from the caller-buffer variant");
+        if (n == 0)
+        {
+            // the empty payload given as no pieces at all (an empty iovec array): the same frame
+            c.label("zero_pieces");
+            std::vector<iovec> none;
+            iovec unused[1] = {{nullptr, 0}};
+            Exact out0(ref.size());
+            int len0 = gstuffing_v(none.data(), 0, out0.c(), ctx);
+            VP_CHECK(len0 == (int)frame.size() && memcmp(out0.p, frame.data(), frame.size()) == 0, "encode_iov_differs",
+                     "gstuffing_v over 0 pieces gives %s, gstuffing of the empty payload gives %s", hexdump(out0.p, (size_t)std::max(len0, 0), 80).c_str(),
+                     hexdump(frame.data(), frame.size(), 80).c_str());
+            std::vector<uint8_t> w0 = gstuffing_v(none.data(), 0, ctx), w1 = gstuffing_v(unused, 0, ctx);
+            VP_CHECK(w0 == frame && w1 == frame, "encode_vector_iov_differs", "vector gstuffing_v over 0 pieces gives %zu / %zu bytes, the empty payload's frame has %zu",
+                     w0.size(), w1.size(), frame.size());
+        }
     }
     {
         std::vector<uint8_t> v2 = gstuffing(igris::buffer(in.c(), n), ctx);
